@@ -1,4 +1,5 @@
 import EchVerif.Lemmas.KeyLoop
+import EchVerif.Lemmas.AadRefine
 /-
   C02 — ECH is accepted only for an authentic payload bound to the exact outer hello.
   HPKE is ideal (section 6 of DESIGN.md): `H.seals` lists the seals that exist; the theorems quantify
@@ -87,5 +88,67 @@ theorem C02_clean_fallback (H : Hpke) (keys : List Key) (t : Tr) :
           cases inner with
           | some i => left; simp [St.accepted, afterHello, firstMarshal] at hm ⊢; exact hm
           | none => right; simp [St.accepted, afterHello]
+
+/-- **ClientHelloOuterAAD refines the draft-level specification.** For every buffer the model parses
+    as a ClientHello carrying an outer (type 0) ECH extension, the associated data the model feeds to
+    HPKE (`marshalAAD`, i.e. `marshal(aad=true)[9:]` in the code) is exactly `Spec.aadSpec` of the
+    ClientHello body as it came off the wire — the structure with the payload field of the ECH
+    extension replaced by zeros of the same length (draft 5.2), computed on bytes by a definition
+    written independently of client_hello.go. Hence the seals of C02_accept_sound / C02_retry_sound
+    are bound to every byte of the outer hello other than the payload. -/
+theorem C02_aad_refines_spec (buf : Bytes) (h : Hello) (e : EchExt) (a : Bytes)
+    (hp : parseClientHello buf = .ok h) (he : h.d.ech = some e) (ht : e.typ = 0) (ha : h.marshalAAD = .ok a) :
+    ∃ msg trail, buf = u8 1 ++ (u24 msg.length ++ msg) ++ trail ∧ Spec.aadSpec msg = some a := by
+  obtain ⟨body, after, trail, hbuf, _, hmb0, hbody, hrnd, _, hpe, _, hno⟩ := parseClientHello_inv _ h hp
+  have hne : h.noExt = false := by
+    cases hn : h.noExt with
+    | false => rfl
+    | true =>
+      exfalso
+      have hex := (hno hn).1
+      rw [hex] at hpe
+      simp only [parseExtensions, parseExtensionsFrom, Except.ok.injEq] at hpe
+      rw [← hpe] at he
+      simp at he
+  refine ⟨body ++ after, trail, hbuf, ?_⟩
+  obtain ⟨s1, s2, s3, s4, _, hb0⟩ := marshalBody_inv h body hne hmb0
+  have hfields := fields_body h.legacyVersion h.random h.sessionId h.cipherSuites h.compression (encExts h.exts) after hrnd s1 s2 s3 s4
+  rw [← hb0] at hfields
+  have hr0 := TLS.parseClientHello_exts_range _ h hp
+  have hie := extsOf_parseExts _ _ (parseExts_encExts h.exts hr0)
+  -- the model's AAD
+  simp only [Hello.marshalAAD] at ha
+  split at ha
+  · simp at ha
+  · rename_i m hm
+    split at ha
+    · simp at ha
+    · simp only [Except.ok.injEq] at ha
+      obtain ⟨b2, hmb2, hrec⟩ := marshalRecA_inv true h m hm
+      simp only [marshalBody, he] at hmb2
+      split at hmb2
+      · simp at hmb2
+      · rename_i eb hput
+        split at hmb2
+        · rename_i sid cs comp ex h1 h2 h3 h4
+          simp only [Except.ok.injEq, hne, Bool.false_eq_true, if_false] at hmb2
+          obtain ⟨_, rfl⟩ := lp8_inv h1
+          obtain ⟨_, rfl⟩ := lp16_inv h2
+          obtain ⟨_, rfl⟩ := lp8_inv h3
+          obtain ⟨_, rfl⟩ := lp16_inv h4
+          have hech : ∀ x ∈ h.exts, x.typ = 0xfe0d → ∃ y, parseEchExt x.data = .ok y ∧ y.typ = 0 ∧ y.payload.length = e.payload.length := by
+            intro x hx hxt
+            obtain ⟨y, hy, hdy⟩ := parseExtensionsFrom_ech_parse {} h.d h.exts hpe rfl x hx hxt
+            rw [he] at hdy
+            simp only [Option.some.injEq] at hdy
+            subst hdy
+            exact ⟨e, hy, ht, rfl⟩
+          have heb := putExts_aad e.payload.length h.exts eb hech hput
+          simp only [Spec.aadSpec, hfields, hie]
+          subst hrec
+          subst hmb2
+          rw [← heb, ← ha]
+          simp [u8, u16, u24, List.append_assoc]
+        · simp at hmb2
 
 end ECH
